@@ -7,7 +7,7 @@ import re
 from ..core import guards
 from ..core import pyfacts as pf
 from ..core import sibling
-from ..core.match import txt
+from ..core.match import phi_alts, txt
 from ..core.source import AnchorMissing, site_packages_file
 from .common import A2G, ACHAIN, GOOFIT, MAIN, ckey, enclosing, fn, stmt_of, where
 
@@ -83,14 +83,15 @@ def c19_1(ctx, ss):
         for r in [r for r in pf.walk_no_nested(ff.node) if isinstance(r, ast.Return) and r.value is not None]:
             split_r([(txt(e), pol) for kind, e, pol in guards.path_conditions(ff.node, r) if kind == "if"], r.value, r)
         rets = [(c_, v_, n_) for c_, v_, n_ in alts_r if not isinstance(v_, ast.Constant)]
-        okr = len(rets) == 1 and flow.text(rets[0][1]) == "StringIO().getvalue()" and ("ret_output", True) in rets[0][0]
+        okr = len(rets) == 1 and ("ret_output", True) in rets[0][0]
         if okb and okr:
-            # the buffer that is returned is the one the printer writes to
+            # the buffer that is returned is the one the printer writes to: both go back to the function's single StringIO()
             pb = [d.value for d in binds if d.value is not None and txt(d.value).startswith("partial(")]
             buf = next((kw.value for kw in pb[0].keywords if kw.arg == "file"), None) if pb else None
             rv = rets[0][1]
-            okr = isinstance(buf, ast.Name) and isinstance(rv, ast.Call) and isinstance(rv.func, ast.Attribute) \
-                and isinstance(rv.func.value, ast.Name) and rv.func.value.id == buf.id
+            n_sio = len([c_ for c_ in pf.calls_in(ff.node) if txt(c_.func) in ("StringIO", "io.StringIO")])
+            okr = buf is not None and flow.text(buf) == "StringIO()" and n_sio == 1 and isinstance(rv, ast.Call) and isinstance(rv.func, ast.Attribute) \
+                and rv.func.attr == "getvalue" and not rv.args and "StringIO()" in [txt(a_) for a_ in phi_alts(flow.expand(rv.func.value))]
         rets = [n_ for _, _, n_ in rets]
         (ctx.holds if okb and okr else ctx.violation)("C19.1", f"{A2G}:{q} :: sink", where(ff, ff.node),
                                                       f"{q}: printer is print or print-to-buffer; the buffer is what is returned" if okb and okr
@@ -142,8 +143,18 @@ def c19_2(ctx, ss):
                                                               "coefficient names start with str(amplitude)" if bases == {"self!s"} else f"coefficient names are built from {sorted(bases)}")
     # fixedness: C++ passes the flag, Python chooses the arm by self.fix
     ff, flow = fn(ss, GOOFIT, "GooFitPyChain.make_amplitude")
-    ifx = [x for x in pf.walk_no_nested(ff.node) if isinstance(x, ast.IfExp)]
-    ok = len(ifx) == 2 and all(txt(x.test) == "self.fix" and "self.err" not in txt(x.body) and "self.err" in txt(x.orelse) for x in ifx)
+    # every coefficient text (whatever statement shape selects it): with the error and limits exactly when the amplitude is free
+    from .common import guarded_values
+    alts_c = []
+    for nm_ in {d.name for d in flow.defs if d.kind == "assign" and d.value is not None and "self.amp." in txt(d.value)}:
+        alts_c += guarded_values(ff, flow, [d for d in flow.defs if d.name == nm_ and d.kind == "assign"])
+    ok = len(alts_c) == 4
+    for conds, v in alts_c:
+        fixed = [p_ for t_, p_ in conds if t_ == "self.fix"]
+        others = [t_ for t_, p_ in conds if t_ != "self.fix"]
+        has_err = "self.err" in txt(v)
+        if len(fixed) != 1 or others or has_err == fixed[0]:
+            ok = False
     (ctx.holds if ok else ctx.violation)("C19.2", f"{GOOFIT}:GooFitPyChain.make_amplitude :: fixedness", where(ff, ff.node),
                                           "Python: fixed ⇒ value only, free ⇒ value, error and limits — chosen by self.fix for both coefficients" if ok
                                           else "Python: the fixed/free arms are not chosen by self.fix for both coefficients")
@@ -229,6 +240,9 @@ def c19_4(ctx, ss):
                 e_ = miflow.expand(fv.value)
                 if isinstance(e_, ast.BinOp) and isinstance(e_.op, ast.Add) and isinstance(e_.right, ast.Constant) and e_.right.value in ("_M", "_W"):
                     decl.add((txt(e_.left), e_.right.value))
+                elif isinstance(e_, ast.JoinedStr) and len(e_.values) == 2 and isinstance(e_.values[0], ast.FormattedValue) and e_.values[0].conversion == -1 \
+                        and e_.values[0].format_spec is None and isinstance(e_.values[1], ast.Constant) and e_.values[1].value in ("_M", "_W"):
+                    decl.add((txt(e_.values[0].value), e_.values[1].value))          # f"{name}_M" == name + "_M"
         decl = sorted(decl)
         ok_decl = sorted(decl) == sorted([("__elem__(cls.all_particles - set(all_states)).programmatic_name", "_M"), ("__elem__(cls.all_particles - set(all_states)).programmatic_name", "_W")])
         (ctx.holds if ok_use and ok_decl else ctx.violation)("C19.4", k + " :: mass-width", where(ls, ls.node),
